@@ -59,7 +59,17 @@ META = {
              "transition, statistic, view, plot hand-over, arviz hand-over and frame edge in it (values only; number types of "
              "results are not compared; the wider array behind a view must stay untouched; no call may raise on a write-protected "
              "chain); the geometry `half` (function values x/2, not integers) makes conversions of integer chains observable; "
-             "statistics of every member of a joint set are compared."),
+             "statistics of every member of a joint set are compared. Credibility level: the levels of every cfg are exact "
+             "rationals given in tenths of a percent over the whole documented range incl. its boundaries and small values (quick: 0, "
+             "0.5, 1, 2.5, 50, 95, 99.5, 100; thorough also 0.1, 1.5, 10, 80, 90, 99, 99.9); TLC checks the level law LevelLaw / "
+             "FLevelLaw at every node of both machines (interval of level 0 = the median, of level 100 = the range of the chain, "
+             "bounds strictly nested in the level, bounds = percentiles at positions (1000 -+ m)(n-1)/2000 in integer arithmetic; "
+             "deviation Fraction - a level 0 < p <= 1 read as a fraction of one - must violate it in both machines) and emits per "
+             "level the number types in which it can be handed over exactly (python int / float, numpy int64 / int32 / float64 / "
+             "float32); the replay calls compute_ci / ci_width positionally (natural type) and by keyword (another type, rotating), "
+             "plot_ci_width(p) and, for parameter samples, plot_ci(p) (envelope handed to geometry.plot_envelope = exact (lower, "
+             "upper); arrays handed to geometry.plot as parameters = exact mean / lower / upper / width), the frame machine with "
+             "rotating number types, every level x number type at least once (vacuity guard)."),
     "note": ("Bounded chain lengths, burn-in / thinning boxes, eight fixed small geometries and a finite set of credibility "
              "levels; statistics are compared on integer-valued chains with distinct entries per coordinate (function values of "
              "`half`: halves). Single precision layouts: statistics are compared with 64 roundings of size 2^-23 x (largest stored "
@@ -68,7 +78,7 @@ META = {
              "Samples.vector for Continuous2D function values (not implemented by the library) and ESS/R-hat of "
              "function-value samples whose dimension differs from the parameter dimension are outside the asserted "
              "behaviour. Exception types of refused burn-in values are not asserted. Not exercised (no exact oracle in the "
-             "documentation): plot_ci, plot, plot_chain, hist_chain, the arviz plots, diagnostics (Geweke), __repr__, other arviz "
+             "documentation): plot_ci of function-value samples and the composition of its figure, plot, plot_chain, hist_chain, the arviz plots, diagnostics (Geweke), __repr__, other arviz "
              "keyword arguments; the statistic plots are intercepted at geometry.plot with pyplot of the samples module stubbed."),
     "technique": "TLA+ spec (SamplesOps) model-checked with TLC; TLC-emitted transitions and exact statistics replayed "
                  "into cuqi.samples.Samples / JointSamples; arviz entry points wrapped in the harness process; recorded "
